@@ -561,7 +561,14 @@ func vGenBCase(r *vrng) *vBCase {
 	case 1:
 		b.total = c.amt * 4
 	}
-	b.session = r.intn(6) == 0
+	// Restrictions as paymentSession.RequestRoute builds them (no path set in
+	// RestrictParams, so lastHopPayloadSize sizes a CLEARTEXT final hop) are
+	// only generated on request: the harness does not drive the payment
+	// session itself (see notes/C19.md, doubts).
+	b.session = r.intn(6) == 0 && vEnvInt("VERIF_SESSION", 0) == 1
+	if c.lastHop < 0 && r.intn(6) == 0 {
+		c.lastHop = 0
+	}
 	// last-hop restriction: the search ends at the NUMS target, so the
 	// "last hop" of the search is the recipient's blinded key
 	if c.lastHop >= 0 {
@@ -643,9 +650,23 @@ func vBTighten(r *vrng, b *vBCase, rt *vRow) string {
 	case 5:
 		// payload limit: choose the length of the recipient's encrypted
 		// data such that findPath's own estimate lands on the limit -1/0/+1
-		est := 0
-		for i := range rt.Sizes {
-			est += int(rt.Sizes[i])
+		// what findPath itself added up: final-hop estimate + the payload
+		// of the from-node of every path edge but the first
+		est := int(rt.LastSize)
+		for i, e := range rt.Path {
+			if i == 0 {
+				continue
+			}
+			sz := -1
+			for _, bsz := range rt.BSizes {
+				if int(bsz[0]) == e.From && int(bsz[1]) == e.To {
+					sz = int(bsz[2])
+				}
+			}
+			if sz < 0 {
+				sz = int(rt.Sizes[i-1])
+			}
+			est += sz
 		}
 		li := len(p.CtLens) - 1
 		grow := int(sphinx.MaxRoutingPayloadSize) + int(d) - 1 - est
@@ -653,7 +674,8 @@ func vBTighten(r *vrng, b *vBCase, rt *vRow) string {
 			// the dummy hop repeats the recipient's data
 			grow /= 2
 		}
-		nl := p.CtLens[li] + grow - int(r.intn(3))*20
+		// crossing 253 bytes adds 2 bytes to a length prefix
+		nl := p.CtLens[li] + grow - []int{0, 0, 2, 4, 6, 20}[r.intn(6)]
 		if nl < 2 || nl > 1300 {
 			return "bpayload-skip"
 		}
